@@ -413,6 +413,31 @@ func c20(r *engine.Report, p *engine.Program) {
 			r.Check("R4-signer", "SignCertReq: error of "+engine.CalleeObj(ci.Common()).Name(), ci.Pos(), okp, why, why)
 		}
 	}
+	// R4b the copied extension is not touched: same OID, same bytes, same criticality as requested
+	{
+		var bad []string
+		for _, b := range sign.Blocks {
+			for _, in := range b.Instrs {
+				st, ok := in.(*ssa.Store)
+				if !ok {
+					continue
+				}
+				fa, ok := st.Addr.(*ssa.FieldAddr)
+				if !ok {
+					continue
+				}
+				fv := engine.FieldAddrVar(fa)
+				if fv != nil && fv.Pkg() != nil && fv.Pkg().Path() == "crypto/x509/pkix" {
+					if pt, isP := fa.X.Type().Underlying().(*types.Pointer); isP && pt.Elem().String() == "crypto/x509/pkix.Extension" {
+						bad = append(bad, fv.Name()+" at "+p.Pos(st.Pos()))
+					}
+				}
+			}
+		}
+		r.Check("R4-signer", "SignCertReq: no field of the copied subjectAltName extension is modified", sign.Pos(), len(bad) == 0,
+			"the extension taken from the request is placed into the certificate as it is",
+			fmt.Sprintf("SignCertReq rewrites %v of the copied extension: e.g. a critical SAN holding only receptor otherNames makes x509 verification fail (unhandled critical extension), so a certificate issued for node IDs only is accepted for none of them", bad))
+	}
 	// R6 request construction
 	{
 		ok := false
@@ -446,6 +471,59 @@ func c20(r *engine.Report, p *engine.Program) {
 		for _, ci := range callsTo(prn, "utils.ReceptorNames") {
 			okp, why := errorPropagates(prn, ci.(*ssa.Call))
 			r.Check("R5-exact-match", "ParseReceptorNamesFromCert: decode error propagates", ci.Pos(), okp, why, why)
+		}
+		// the expected ID is compared only with names decoded from the receptor otherName entries
+		// (no fallback to the subject CN, DNS names, ...)
+		{
+			var names ssa.Value
+			for _, ci := range callsTo(prn, "utils.ReceptorNames") {
+				for _, v := range callResult(ci.(*ssa.Call), 0) {
+					names = v
+				}
+			}
+			isElem := func(v ssa.Value) bool {
+				v = engine.Unwrap(v)
+				switch x := v.(type) {
+				case *ssa.UnOp: // load of &names[i]
+					if ia, ok := x.X.(*ssa.IndexAddr); ok {
+						return engine.Unwrap(ia.X) == names
+					}
+				case *ssa.Extract: // range value
+					if nx, ok := x.Tuple.(*ssa.Next); ok {
+						if rg, ok := nx.Iter.(*ssa.Range); ok {
+							return engine.Unwrap(rg.X) == names
+						}
+					}
+				case *ssa.Index:
+					return engine.Unwrap(x.X) == names
+				}
+				return false
+			}
+			var bad []string
+			nCmp := 0
+			for _, b := range prn.Blocks {
+				for _, in := range b.Instrs {
+					bo, ok := in.(*ssa.BinOp)
+					if !ok || (bo.Op != token.EQL && bo.Op != token.NEQ) {
+						continue
+					}
+					var other ssa.Value
+					if engine.Unwrap(bo.X) == ssa.Value(exp) {
+						other = bo.Y
+					} else if engine.Unwrap(bo.Y) == ssa.Value(exp) {
+						other = bo.X
+					} else {
+						continue
+					}
+					nCmp++
+					if names == nil || !isElem(other) {
+						bad = append(bad, p.Pos(bo.Pos()))
+					}
+				}
+			}
+			r.Check("R5-exact-match", "ParseReceptorNamesFromCert: the expected ID is compared only with decoded receptor names", prn.Pos(), len(bad) == 0 && nCmp > 0,
+				fmt.Sprintf("%d comparison(s) of the expected ID, each with an element of the list returned by ReceptorNames", nCmp),
+				fmt.Sprintf("the expected ID is also compared with something other than a decoded receptor name at %v (e.g. the subject CN): a certificate issued for no node ID is accepted as a node", bad))
 		}
 		// the verifier judges each certificate on the names decoded from it in that handshake
 		if rvf := p.Func("netceptor.ReceptorVerifyFunc"); rvf != nil && len(rvf.AnonFuncs) > 0 {
